@@ -1,7 +1,7 @@
 #!/bin/bash
 # run_seeded.sh [ID...] : for every seeded mutant (default all): apply it to /repo, run the quick check of its property, revert;
 # record the outcome in seeded/<id>/meta.json ("verified").  /repo must be clean.  Sequential (the checks rebuild from /repo).
-export GOFLAGS=-mod=mod GOPROXY=off GOSUMDB=off GOTOOLCHAIN=local
+export GOFLAGS=-mod=mod GOPROXY=off GOSUMDB=off GOTOOLCHAIN=local VERIF_NOSHRINK=1
 cd /verif
 ids="$@"; [ -z "$ids" ] && ids=$(ls seeded)
 head=$(git -C /repo rev-parse --short HEAD)
